@@ -120,3 +120,28 @@ def ALLDIV(N):
 def chunks(lst, k):
     for i in range(0, len(lst), k):
         yield lst[i:i + k]
+
+
+def zvals(maxl, A=L5, signs=(1, -1)):
+    """0 and every normalised magnitude of 1..maxl limbs over alphabet A, with both signs"""
+    vals = [0]
+    for n in range(1, maxl + 1):
+        for v in EXH(A, n):
+            if v >> (64 * (n - 1)):
+                for s in signs:
+                    vals.append(s * v)
+    return vals
+
+
+def zruns(nmin, nmax, A=L3, r=2, signs=(1, -1)):
+    out = []
+    for n in range(nmin, nmax + 1):
+        for v in RUN(A, n, r):
+            if v >> (64 * (n - 1)):
+                for s in signs:
+                    out.append(s * v)
+    return out
+
+
+def sgn(x):
+    return (x > 0) - (x < 0)
